@@ -184,6 +184,14 @@ def run_shard(spec, shard):
                 shard.fail(f["bucket"], case, f, size=len(q))
 
     drive(rng(), spec["n"], spec["seed"], body)
+    if spec["shard"] == 0 or spec.get("interp"):
+        # the shortest rejected texts: nothing at all, blank space only, a lone character, text ending in a line break
+        for q in ["", " ", "\n", "\t", "\r\n", " \n ", "\n\n", "@", ".", "[", "]", "'", "?", "$ ", "$\n", "\n$", " $", "$.", "$[", "$.\n", "$[\n", "$.a\n.", "\n\n$.a b"]:
+            case = {"q": q}
+            shard.case(key=("short", q), nontrivial=True, classes={"shortest-texts"}, sample={"q": q})
+            f = examine(case)
+            if f:
+                shard.fail(f["bucket"], case, f, size=len(q))
 
 
 def minimise(case, failure, tier):
